@@ -29,7 +29,7 @@ from .corpus import CORPUS
 
 PROP = "C04"
 FEATURE_SETS = ("none", "full")
-GRAMMARS = ["g1", "g2", "p1", "p3", "c1", "c2", "o1", "o2", "a1", "a3", "k1", "k2", "k4", "kc", "v1", "e1", "j1", "h1", "h2", "k5", "k6", "am", "c5", "f1", "x1", "x2", "x4", "f3"]
+GRAMMARS = ["g1", "g2", "p1", "p3", "c1", "c2", "o1", "o2", "a1", "a3", "k1", "k2", "k4", "kc", "v1", "e1", "j1", "h1", "h2", "k5", "k6", "am", "c5", "f1", "x1", "x2", "x4", "f3", "gd"]
 LOOPS = ("many", "some", "count", "last")
 
 RENDER_MODELS = dict(tok.TOK_MODELS)
